@@ -246,6 +246,10 @@ int tls13_send(TLS_CONNECT *conn, const uint8_t *data, size_t datalen, size_t *s
 
 	tls_trace("send {ApplicationData}\n");
 
+	if (datalen > TLS_MAX_PLAINTEXT_SIZE) {
+		datalen = TLS_MAX_PLAINTEXT_SIZE;
+	}
+
 	if (conn->is_client) {
 		key = &conn->client_write_key;
 		iv = conn->client_write_iv;
